@@ -1075,7 +1075,11 @@ impl<'a> GeneratorState<'a> {
                 let v = self.compiler_state.get_variable(name);
                 match v.var_type {
                     VariableType::CharPtr => {
-                        self.asm(STA, &ExprType::Absolute(name.clone(), true, 0), pos, false)?;
+                        // Like load() and store(), a strobe must reach the hardware whatever the optimizer believes
+                        self.protected = true;
+                        let r = self.asm(STA, &ExprType::Absolute(name.clone(), true, 0), pos, false);
+                        self.protected = false;
+                        r?;
                         Ok(())
                     }
                     _ => Err(self
@@ -1090,6 +1094,16 @@ impl<'a> GeneratorState<'a> {
     }
 
     fn generate_csleep_statement(&mut self, cycles: i32, pos: usize) -> Result<(), Error> {
+        // The accesses to DUMMY are there for their cycles: the optimizer must not remove them
+        self.protected = true;
+        let r = self.generate_csleep_sequence(cycles, pos);
+        self.protected = false;
+        // DEC and PLA change N and Z
+        self.flags = FlagsState::Unknown;
+        r
+    }
+
+    fn generate_csleep_sequence(&mut self, cycles: i32, pos: usize) -> Result<(), Error> {
         match cycles {
             2 => self.sasm_protected(NOP)?,
             3 => self.asm(
@@ -1174,6 +1188,10 @@ impl<'a> GeneratorState<'a> {
             _ => self.asm(if load { LDA } else { STA }, expr, pos, false)?,
         };
         self.protected = false;
+        if load {
+            // The flags now describe the loaded value, not what was tested before
+            self.flags = FlagsState::Unknown;
+        }
         Ok(())
     }
 
